@@ -212,12 +212,13 @@ def run_pair(a, b, A, B, c, comp, why):
         elif le != (lt or eq) or ge != (gt or eq) or ne != (not eq):
             bad.append(("order/operators-inconsistent", "<= is (< or ==), >= is (> or ==), != is not == for (%r, %r)" % (x, y),
                         "<,<=,==,!=,>=,> = %r" % (ops,)))
-        if vc != e:
-            bad.append(("order/%s/%s/version_compare" % (comp, why), "version_compare(%r, %r) == %d (dpkg: %s)" % (x, y, e, WORD[e]),
-                        vc))
-        if ops != OPS_FOR[e]:
-            bad.append(("order/%s/%s/operators" % (comp, why),
-                        "Version(%r) <,<=,==,!=,>=,> Version(%r) = %r (dpkg: %s)" % (x, y, OPS_FOR[e], WORD[e]), ops))
+        if vc != e or ops != OPS_FOR[e]:
+            bad.append(("order/%s/%s" % (comp, why),
+                        "version_compare(%r, %r) == %d and Version <,<=,==,!=,>=,> = %r (dpkg: %s)" % (x, y, e, OPS_FOR[e], WORD[e]),
+                        "version_compare %r, operators %r" % (vc, ops)))
+        if (lt, eq, gt) != (vc == -1, vc == 0, vc == 1):
+            bad.append(("order/version_compare-disagrees-with-operators", "version_compare(%r, %r) is -1/0/1 as <, ==, > say" % (x, y),
+                        "version_compare %r but <, ==, > = %r" % (vc, (lt, eq, gt))))
         if eq is True and e == 0:
             eq_seen = True
         if x == y:
